@@ -14,7 +14,7 @@
 """
 from pyvc.api import (proof, bounded, load, model, blank, tier, fresh_int,
                       fresh_bool, fresh_str, pick, assume, check, implies,
-                      conj, disj, neg, rng)
+                      conj, disj, neg, rng, in_lang, re_lang)
 
 VU = 'oslo_utils/versionutils.py'
 
@@ -155,6 +155,54 @@ def is_compatible_contract():
 OPS = ['<', '<=', '==', '>', '>=', '!=']
 
 
+@proof('C17', targets=[(VU, 'convert_version_to_tuple')], native=False)
+def prerelease_marker_is_stripped_from_the_end_only():
+    """convert_version_to_tuple first rewrites the text with one re.sub: the
+    lemma is about that call - the pattern finds <digits><marker><digits> at
+    the END of the text only (so a marker in an earlier component survives
+    and makes int() raise), the replacement keeps the leading digits, and
+    the text handed over is the argument."""
+    V = load(VU)
+    calls = []
+
+    class FakeRe:
+        def sub(self, pattern, repl, string, count=0, flags=0):
+            calls.append((pattern, repl, string, count, flags))
+            return '12.1'
+    model(V, 're', FakeRe())
+    text = fresh_str('version')
+    got = V.convert_version_to_tuple(text)
+    check('tuple/one-substitution-on-the-argument',
+          len(calls) == 1 and calls[0][2] == text and calls[0][3] == 0)
+    pattern, repl, _s, _c, flags = calls[0]
+    check('tuple/replacement-keeps-the-leading-digits', repl == '\\1')
+    x = fresh_str('any_text')
+    found = in_lang(x, re_lang(pattern, flags, 'search'))
+    spec = in_lang(x, re_lang(
+        r'(.|\n)*[0-9]+(a|alpha|b|beta|rc)[0-9]+\n?', 0, 'full'))
+    # (digits: the documented ASCII ones; \d also takes other Unicode
+    # decimal digits, which int() accepts as well)
+    check('tuple/marker-found-only-at-the-end-of-the-text',
+          implies(found, in_lang(x, re_lang(
+              r'(.|\n)*\d+(a|alpha|b|beta|rc)\d+\n?', 0, 'full'))))
+    check('tuple/every-trailing-marker-is-found', implies(spec, found))
+    check('tuple/split-on-dots-and-int',
+          got == (12, 1))
+
+
+@proof('C17', targets=[(VU, 'VersionPredicate._PREDICATE_MATCH')])
+def predicate_clause_language():
+    """A clause is optional blanks, one of the six operators, optional
+    blanks, a blank-free version text, optional blanks - nothing else."""
+    V = load(VU)
+    pat = V.VersionPredicate._PREDICATE_MATCH
+    x = fresh_str('clause')
+    accepted = in_lang(x, re_lang(pat.pattern, pat.flags, 'match'))
+    spec = in_lang(x, re_lang(r'\s*(<=|>=|<|>|!=|==)\s*\S+\s*', 0, 'full'))
+    check('clause/accepts-only-the-documented-form', implies(accepted, spec))
+    check('clause/accepts-every-documented-form', implies(spec, accepted))
+
+
 @proof('C17', targets=[(VU, 'VersionPredicate._COMP_MAP')])
 def comparison_table_is_the_documented_one():
     V = load(VU)
@@ -286,6 +334,14 @@ def versions_family():
 
 
 CANARIES = [
+    dict(name='prerelease-end-anchor-dropped', prop='C17', file=VU,
+         proofs=['prerelease_marker_is_stripped_from_the_end_only'],
+         old=r"rc)\d+$', '\\1'", new=r"rc)\d+', '\\1'",
+         expect='tuple/marker-found-only-at-the-end'),
+    dict(name='predicate-operator-tilde-admitted', prop='C17', file=VU,
+         proofs=['predicate_clause_language'],
+         old='(<=|>=|<|>|!=|==)', new='(<=|>=|<|>|!=|==|~=)',
+         expect='clause/accepts-only'),
     dict(name='radix-100', file=VU, proofs=['radix_1000_round_trip'],
          old='lambda x, y: (x * 1000) + y', new='lambda x, y: (x * 100) + y',
          expect='radix/'),
